@@ -10,7 +10,12 @@
 (*                                   placeholders                           *)
 (*   [k |-> "fun"]                   a statement calling a helper that is   *)
 (*                                   declared with /*gpufun*/               *)
-(*   [k |-> "vec"]                   //vectorize_over <var> n               *)
+(*   [k |-> "vec", h |-> H]          //vectorize_over <var> <bound>         *)
+(*                                   H = 0: the bound is n, the kernel's    *)
+(*                                   n_threads (= launch size); H = 1: the  *)
+(*                                   bound is n \div 2, a second variable   *)
+(*                                   of the kernel: a block may cover FEWER *)
+(*                                   indices than work-items are launched   *)
 (*   [k |-> "end"]                   //end_vectorize                        *)
 (*   [k |-> "only", c |-> C]         statement //only_for_context C         *)
 (*   [k |-> "inc", f |-> F, c |-> C] //include_file F for_context C         *)
@@ -54,9 +59,12 @@ Concat(ss) == LET RECURSIVE C(_)
 (* function of (source, files found now), not of earlier calls.                                            *)
 FileNames == {"fa", "fb", "fc"}
 FileBody(f) == CASE f = "fa" -> <<[k |-> "plain"]>>
-                 [] f = "fb" -> <<[k |-> "vec"], [k |-> "plain"], [k |-> "end"]>>
+                 [] f = "fb" -> <<[k |-> "vec", h |-> 0], [k |-> "plain"], [k |-> "end"]>>
                  [] f = "fc" -> <<[k |-> "plain"], [k |-> "only", c |-> {"opencl", "cpu_openmp"}]>>
 HasBlock(f) == f = "fb"
+
+(* the bound a vectorize_over line with selector h names, for a kernel launched over n *)
+Lim(n, h) == IF h = 1 THEN n \div 2 ELSE n
 
 (* ------------------------------------------------------------------------ *)
 (* Part A: contract                                                          *)
@@ -74,10 +82,13 @@ CSpliceWith(src, Inc(_)) ==
 CSplice(src, t) == LET In(c) == t \in c IN CSpliceWith(src, In)
 USplice(src) == LET In(c) == TRUE IN CSpliceWith(src, In)        \* every include expanded: all statements there are
 
-(* id of the vectorize_over line whose block contains position i of a tagged sequence, None outside blocks *)
-Encl(sq, i) ==
+(* position of the vectorize_over line whose block contains position i of a tagged sequence, 0 outside blocks *)
+EnclPos(sq, i) ==
   LET opens == {j \in 1..(i - 1) : sq[j].l.k = "vec" /\ \A m \in (j + 1)..(i - 1) : sq[m].l.k # "end"}
-  IN IF opens = {} THEN None ELSE sq[Max(opens)].id
+  IN IF opens = {} THEN 0 ELSE Max(opens)
+(* id of that line (None outside blocks), and the bound selector of that block *)
+Encl(sq, i) == IF EnclPos(sq, i) = 0 THEN None ELSE sq[EnclPos(sq, i)].id
+EnclH(sq, i) == sq[EnclPos(sq, i)].l.h
 
 Balanced(sq) ==
   /\ \A i \in 1..Len(sq) : /\ sq[i].l.k = "vec" => Encl(sq, i) = None
@@ -95,7 +106,13 @@ VarOf(src, id) == LET u == USplice(src)
                   IN Encl(u, i)
 
 (* what the contract says about one statement on one target:                                   *)
-(*   "blk"  active inside a vectorised block  -> exactly once for every index 0..n-1           *)
+(*   "blk"  active inside a vectorised block whose bound is n, the launch size                  *)
+(*                                            -> exactly once for every index 0..n-1           *)
+(*   "blkh" active inside a vectorised block whose bound L = n \div 2 is smaller than the launch *)
+(*          size: CPU targets and CUDA ("guarded by the bound") -> exactly once for every index *)
+(*          0..L-1; OpenCL ("once per work-item", no guard promised) -> once for each of the n  *)
+(*          work-items, indices 0..n-1.  Whatever other blocks of the kernel do: the clause of  *)
+(*          a statement depends on its OWN block only.                                         *)
 (*   "free" active outside every block        -> passes through unchanged; once per call on CPU *)
 (*          (C16 says nothing about how often unvectorised code runs on a GPU)                 *)
 (*   "off"  restricted to other contexts / in a file not included here -> never                *)
@@ -105,13 +122,18 @@ ClassOf(src, t, id) ==
   IN IF at = {} THEN "off"
      ELSE LET i == CHOOSE i \in at : TRUE IN
           IF s[i].l.k = "only" /\ t \notin s[i].l.c THEN "off"
-          ELSE IF Encl(s, i) # None THEN "blk" ELSE "free"
+          ELSE IF Encl(s, i) = None THEN "free"
+          ELSE IF EnclH(s, i) = 1 THEN "blkh" ELSE "blk"
 
 (* Observed executions of ONE statement in one kernel call as canonical runs <<lo, hi, c>>:     *)
 (* the statement ran c > 0 times with every index in lo..hi, runs are maximal and disjoint,    *)
 (* every index not covered was never seen.                                                     *)
+OncePerIndex(L) == IF L > 0 THEN {<<0, L - 1, 1>>} ELSE {}
 StmtClause(cls, t, n, runs) ==
-  CASE cls = "blk"  -> IF runs = (IF n > 0 THEN {<<0, n - 1, 1>>} ELSE {}) THEN "" ELSE "block-not-once-per-index"
+  CASE cls = "blk"  -> IF runs = OncePerIndex(n) THEN "" ELSE "block-not-once-per-index"
+    [] cls = "blkh" -> IF t = "opencl"
+                       THEN (IF runs = OncePerIndex(n) THEN "" ELSE "short-block-not-once-per-work-item")
+                       ELSE (IF runs = OncePerIndex(Lim(n, 1)) THEN "" ELSE "short-block-not-once-per-index")
     [] cls = "off"  -> IF runs = {} THEN "" ELSE "inactive-line-executed"
     [] cls = "free" -> IF IsCpu(t) /\ runs # {<<None, None, 1>>} THEN "unannotated-line-not-once-on-cpu" ELSE ""
 
@@ -159,15 +181,15 @@ Pass1(src, t) ==
 
 (* abstract C lines:  [o |-> "stmt", id, v]  statement recording (id, value of v)               *)
 (*                    [o |-> "off", id]      commented-out statement     [o |-> "cmt"] comment   *)
-(*                    [o |-> "for", v]       for (int v=0; v<n; v++){                            *)
+(*                    [o |-> "for", v, h]    for (int v=0; v<LIM; v++){       LIM = Lim(n, h)    *)
 (*                    [o |-> "decl", v]      int v;                                              *)
 (*                    [o |-> "gid", v]       v=get_global_id(0);                                 *)
 (*                    [o |-> "tid", v]       v=blockDim.x*blockIdx.x+threadIdx.x;                *)
-(*                    [o |-> "guard", v]     if (v<n){            [o |-> "close"]  }             *)
-VecLines(t, v) ==
-  CASE IsCpu(t)     -> <<[o |-> "for", v |-> v]>>
+(*                    [o |-> "guard", v, h]  if (v<LIM){          [o |-> "close"]  }             *)
+VecLines(t, v, h) ==
+  CASE IsCpu(t)     -> <<[o |-> "for", v |-> v, h |-> h]>>
     [] t = "opencl" -> <<[o |-> "decl", v |-> v], [o |-> "gid", v |-> v]>>
-    [] t = "cuda"   -> <<[o |-> "decl", v |-> v], [o |-> "tid", v |-> v], [o |-> "guard", v |-> v]>>
+    [] t = "cuda"   -> <<[o |-> "decl", v |-> v], [o |-> "tid", v |-> v], [o |-> "guard", v |-> v, h |-> h]>>
 EndLines(t) == IF t = "opencl" THEN <<[o |-> "cmt"]>> ELSE <<[o |-> "close"]>>
 
 (* second pass: one line at a time with the inside_vect_block flag (which, as implemented, only *)
@@ -177,7 +199,7 @@ Pass2(src, t, ls, i, inside) ==
   IF i > Len(ls) THEN <<>>
   ELSE LET ln == ls[i].l
            id == ls[i].id IN
-    IF ln.k = "vec" THEN VecLines(t, id) \o Pass2(src, t, ls, i + 1, TRUE)
+    IF ln.k = "vec" THEN VecLines(t, id, ln.h) \o Pass2(src, t, ls, i + 1, TRUE)
     ELSE IF ln.k = "end" THEN EndLines(t) \o Pass2(src, t, ls, i + 1, FALSE)
     ELSE IF ln.k = "cmt" THEN <<[o |-> "cmt"]>> \o Pass2(src, t, ls, i + 1, inside)
     ELSE IF ln.k = "only" /\ t \notin ln.c THEN <<[o |-> "off", id |-> id]>> \o Pass2(src, t, ls, i + 1, inside)
@@ -213,15 +235,15 @@ Step(prog, n, th, pc, stack, env, ex) ==
       [] L.o = "decl"  -> Step(prog, n, th, pc + 1, stack, Bind(env, L.v, Undef), ex)
       [] L.o = "gid"   -> Step(prog, n, th, pc + 1, stack, Bind(env, L.v, th.gid), ex)
       [] L.o = "tid"   -> Step(prog, n, th, pc + 1, stack, Bind(env, L.v, th.bdim * th.bidx + th.tidx), ex)
-      [] L.o = "for"   -> IF 0 < n
-                          THEN Step(prog, n, th, pc + 1, <<[o |-> "for", v |-> L.v, pc |-> pc]>> \o stack, Bind(env, L.v, 0), ex)
+      [] L.o = "for"   -> IF 0 < Lim(n, L.h)
+                          THEN Step(prog, n, th, pc + 1, <<[o |-> "for", v |-> L.v, h |-> L.h, pc |-> pc]>> \o stack, Bind(env, L.v, 0), ex)
                           ELSE Step(prog, n, th, MatchClose(prog, pc + 1, 0) + 1, stack, env, ex)
-      [] L.o = "guard" -> IF Val(env, L.v) < n
-                          THEN Step(prog, n, th, pc + 1, <<[o |-> "guard", v |-> L.v, pc |-> pc]>> \o stack, env, ex)
+      [] L.o = "guard" -> IF Val(env, L.v) < Lim(n, L.h)
+                          THEN Step(prog, n, th, pc + 1, <<[o |-> "guard", v |-> L.v, h |-> L.h, pc |-> pc]>> \o stack, env, ex)
                           ELSE Step(prog, n, th, MatchClose(prog, pc + 1, 0) + 1, stack, env, ex)
       [] L.o = "close" -> IF stack = <<>> THEN ex          \* closes the kernel body: the thread returns
                           ELSE LET f == Head(stack) IN
-                            IF f.o = "for" /\ env[f.v] + 1 < n
+                            IF f.o = "for" /\ env[f.v] + 1 < Lim(n, f.h)
                             THEN Step(prog, n, th, f.pc + 1, stack, Bind(env, f.v, env[f.v] + 1), ex)
                             ELSE Step(prog, n, th, pc + 1, Tail(stack), env, ex)
       [] OTHER         -> Step(prog, n, th, pc + 1, stack, env, ex)
@@ -248,7 +270,8 @@ RunsOf(ex, id, lo, hi) ==
 (* Part C: model-level check and enumeration of sources                      *)
 (* ------------------------------------------------------------------------ *)
 CONSTANTS MaxLen,        \* longest source enumerated
-          Ns,            \* bounds n
+          Ns,            \* launch sizes n (bound of a block: n or n \div 2)
+          MaxHalf,       \* at most this many blocks of one source have the smaller bound n \div 2
           Blocks,        \* CUDA block sizes
           CtxSets,       \* context sets used on only_for_context lines
           IncFa, IncFb, IncFc,   \* context sets used on include_file lines of file fa / fb / fc ({} = file not used)
@@ -258,10 +281,12 @@ CONSTANTS MaxLen,        \* longest source enumerated
 VARIABLE src
 
 InBlockAtEnd(s) == Encl(USplice(s), Len(USplice(s)) + 1) # None
+NHalf(s) == Cardinality({p \in 1..Len(s) : s[p].k = "vec" /\ s[p].h = 1})
 Alphabet(s) ==
   LET inb == InBlockAtEnd(s) IN
   [k : Kinds] \cup [k : {"only"}, c : CtxSets]
-  \cup (IF inb THEN {[k |-> "end"]} ELSE {[k |-> "vec"]})
+  \cup (IF inb THEN {[k |-> "end"]}
+       ELSE {[k |-> "vec", h |-> 0]} \cup (IF NHalf(s) < MaxHalf THEN {[k |-> "vec", h |-> 1]} ELSE {}))
   \cup {x \in [k : {"inc"}, f : {"fa"}, c : IncFa] \cup [k : {"inc"}, f : {"fb"}, c : IncFb] \cup [k : {"inc"}, f : {"fc"}, c : IncFc] :
           inb => ~HasBlock(x.f)}
 
@@ -299,5 +324,6 @@ RewriteMeetsContract ==
 EnumeratedAreWellFormed == Complete(src) => WellFormed(src)
 
 (* "All targets compute the same result" is a corollary: the runs of a statement that is "blk" on two   *)
-(* targets are both equal to the one value StmtClause accepts.                                        *)
+(* targets are both equal to the one value StmtClause accepts (for "blkh": on the CPU targets and CUDA; *)
+(* an OpenCL kernel whose block is shorter than the launch has no guard promised by C16).             *)
 =============================================================================
